@@ -125,6 +125,12 @@ def run_sequence(item):
             version = str(max(int(v) for v in added.get(name, {'0': 0})) + 1)
         else:
             file_base = 'fb%d_%d' % (seed % 1000, step)
+            if bases and rng.random() < 0.35:
+                # a file base of which an existing one is a proper prefix ('fb7_1' / 'fb7_12'): the index builder and the retrieval
+                # must keep the two apart
+                file_base = rng.choice(bases)[0] + rng.choice(['2', 'x', '_b'])
+                if any(fb == file_base for fb, _, _ in bases):
+                    file_base = 'fb%d_%d' % (seed % 1000, step)
             name = rng.choice(['My Basis %d', 'my-basis*%d', 'X/Y %d', 'UPPER%d'])
             name = name % step
             family = rng.choice(['famx', 'famy'])
